@@ -456,6 +456,7 @@ func (v *vc) atReturn(fr *frame, st *state, vals []string, k int) {
 	if fc.hasMod {
 		v.frameObligations(fr, st, site)
 	}
+	v.balanceAtReturn(fr, st, site)
 }
 
 func (v *vc) frameObligations(fr *frame, st *state, site string) {
